@@ -124,7 +124,7 @@ class Batch:
         self.wall += o.wall
 
 
-def _parse_lines(lines, b):
+def _parse_lines(lines, b, known=()):
     last_start = None
     ended = False
     for line in lines:
@@ -142,7 +142,13 @@ def _parse_lines(lines, b):
             head, _, detail = rest.partition(" | ")
             s, fp, path, sig = head.split(" ", 3)
             b.fps[int(s)] = fp
-            b.violations.append(dict(seed=int(s), fp=fp, path=path, signature=sig, detail=detail))
+            if sig in known:
+                # a crash-class outcome (the worker reports it from a signal handler and ends itself) whose
+                # signature is a listed known finding: counted like the in-process ones ("K" lines)
+                b.known[sig] = b.known.get(sig, 0) + 1
+                b.known_first.setdefault(sig, int(s))
+            else:
+                b.violations.append(dict(seed=int(s), fp=fp, path=path, signature=sig, detail=detail))
             b.runs += 1
             last_start = None
         elif tag == "K":
@@ -168,6 +174,8 @@ def run_batch(binary, prop, tier, first, count, outdir, workers=NCPU, extra=(), 
     os.makedirs(outdir, exist_ok=True)
     t0 = time.time()
     b = Batch()
+    extra = list(extra)
+    known_sigs = set(extra[extra.index("--known") + 1].split(",")) if "--known" in extra else set()
     workers = max(1, min(workers, count))
     # (from, count) per stripe
     pending = []
@@ -195,7 +203,7 @@ def run_batch(binary, prop, tier, first, count, outdir, workers=NCPU, extra=(), 
                 out, err = p.communicate()
                 raise RuntimeError("worker exceeded the batch wall-clock cap; partial output: %s" % out[-500:])
             runs_before = b.runs
-            last_start, ended = _parse_lines(out.split("\n"), b)
+            last_start, ended = _parse_lines(out.split("\n"), b, known_sigs)
             if p.returncode == 98 and ended:
                 # the worker ended itself after reporting a crash-class outcome of its last run
                 b.worker_deaths += 1
